@@ -472,4 +472,276 @@ theorem dangling_link_replaced (f : Faults) (fuel pid : Nat) (p : Parsed) (fs : 
   subst this
   exact ⟨i, orig, words, hp, he, hcont⟩
 
+/-! ### Every path with a plain directory part is covered -/
+
+/-- A destination whose directory part is a chain of plain directories — whatever its last
+component is: absent, a file with any number of names, a device, a directory, a link of any
+kind — is covered. In particular every plain name in the working directory. -/
+theorem Shape.ofPlainDir (fs : PathFs.Fs) (fuel : Nat) (tmp : Name) (dest : Path) (init : List Name) (n : Name)
+    (hc : dest.comps = init ++ [n]) (hn : n ≠ tmp) (hd : dirsFrom fs.ents (startOf fs dest) init) :
+    Shape fs fuel tmp dest := by
+  rcases hres : resolve fs true fuel dest with ⟨loc, e⟩ | _ | _
+  · exact .resolves loc e hres
+  · exact .fresh init n hc hn hd (by simp [hres, Res.isFound])
+  · exact .fresh init n hc hn hd (by simp [hres, Res.isFound])
+
+theorem Shape.ofName (fs : PathFs.Fs) (fuel : Nat) (tmp : Name) (n : Name) (hn : n ≠ tmp) :
+    Shape fs fuel tmp ⟨false, [n]⟩ :=
+  Shape.ofPlainDir fs fuel tmp _ [] n rfl hn (by simp [dirsFrom])
+
+/-! ### (e) The flattened model is the abstraction of the path-level one -/
+
+/-- What `Model/CliFlows.lean` calls the destination, read off the path-level file system. -/
+def absDest (fs : PathFs.Fs) (fuel : Nat) (p : Path) : Dest :=
+  match readPath fs fuel p with
+  | .bytes b => .file (some b)
+  | .dev => .devFull
+  | .dir => .uncreatable
+  | .absent => if (renameTarget fs fuel p).isSome then .file none else .uncreatable
+
+/-- a path in a writable directory (absent or a regular file) -/
+def isFileDest : Dest → Bool
+  | .file _ => true
+  | _ => false
+
+theorem absDest_file_iff (fs : PathFs.Fs) (fuel : Nat) (p : Path) :
+    isFileDest (absDest fs fuel p) = replaceable fs fuel p := by
+  unfold absDest replaceable readPath
+  rcases hres : resolve fs true fuel p with ⟨loc, e⟩ | _ | _
+  · cases e with
+    | link t => exact absurd hres (walk_follow_not_link _ _ _ _ _ _)
+    | _ => simp [isFileDest]
+  · cases h : (renameTarget fs fuel p).isSome <;> simp [isFileDest]
+  · cases h : (renameTarget fs fuel p).isSome <;> simp [isFileDest]
+
+/-- The flattened `compile`, computed. -/
+theorem compileFs_eq (f : Faults) (p : Parsed) (d : Dest) :
+    compileFs f p { dest := d } =
+      match assembleOk p with
+      | none => (1, { dest := d })
+      | some (o, w) =>
+        if isFileDest d = true ∧ (writeLimited f [] (objBytes o w)).2 = true ∧ f.renameFails = false
+        then (0, { dest := .file (some (objBytes o w)) }) else (1, { dest := d }) := by
+  unfold compileFs
+  cases hp : assembleOk p with
+  | none => rfl
+  | some ow =>
+    obtain ⟨o, w⟩ := ow
+    have hemp : (objBytes o w).isEmpty = false := by simp [objBytes, be16]
+    have hfit := writeLimited_ok f [] (objBytes o w)
+    cases d with
+    | devFull => simp [writeAllOrNothing, applyOps, applyOp, hemp, isFileDest]
+    | uncreatable => simp [writeAllOrNothing, applyOps, applyOp, isFileDest]
+    | file c =>
+      rcases hwl : writeLimited f [] (objBytes o w) with ⟨b, ok⟩
+      rw [hwl] at hfit
+      cases ok with
+      | false => simp [writeAllOrNothing, applyOps, applyOp, hwl, isFileDest]
+      | true =>
+        have hb : b = objBytes o w := by simpa using hfit
+        subst hb
+        cases hr : f.renameFails <;> simp [writeAllOrNothing, applyOps, applyOp, hwl, hr, isFileDest]
+
+/-- **(e)** For every covered destination path, the flattened model `compileFs` of
+`Model/CliFlows.lean`, started on the abstraction of the path-level file system (what reading
+through the path gives: these bytes / absent / a device / cannot be created), ends with the exit
+status of `compileP` and on the abstraction of the file system `compileP` ends on — and with no
+temporary file. So the theorems of `Props/C08.lean` and `Props/C07.lean` about `compileFs` /
+`compile` are theorems about `compileP`. -/
+theorem compileP_refines_compileFs (f : Faults) (fuel pid : Nat) (p : Parsed) (fs : PathFs.Fs) (dest : Path)
+    (hfs : FsOk fs (tmpName pid)) (hs : Shape fs fuel (tmpName pid) dest) :
+    compileFs f p { dest := absDest fs fuel dest } =
+      ((compileP f fuel pid p fs dest).1,
+       { dest := absDest (compileP f fuel pid p fs dest).2 fuel dest, tmp := none }) := by
+  rw [compileFs_eq]
+  rcases compileP_spec f fuel pid p fs dest hfs hs with ⟨hp, hc⟩ | ⟨orig, words, r, hp, hc, hw⟩
+  · rw [hp, hc]
+  · rw [hp, hc]
+    simp only
+    cases hok : r.2 with
+    | true =>
+      obtain ⟨hrep, hfit, hrf⟩ := hw.status.mp hok
+      obtain ⟨L, _, _, hdata, hres⟩ := hw.ok hok
+      have : absDest r.1 fuel dest = .file (some (objBytes orig words)) := by
+        simp [absDest, readPath, hres, hdata]
+      rw [if_pos ⟨by rw [absDest_file_iff]; exact hrep, hfit, hrf⟩, this]; rfl
+    | false =>
+      have hno : ¬ (isFileDest (absDest fs fuel dest) = true ∧
+          (writeLimited f [] (objBytes orig words)).2 = true ∧ f.renameFails = false) := by
+        rw [absDest_file_iff, ← hw.status, hok]; simp
+      have hsame : absDest r.1 fuel dest = absDest fs fuel dest := by
+        have htgt : renameTarget r.1 fuel dest = renameTarget fs fuel dest := by
+          unfold renameTarget resolve
+          rw [show startOf r.1 dest = startOf fs dest by simp [startOf, hw.cwd],
+            walk_ext (hw.fail hok) false fuel _ _]
+        unfold absDest
+        rw [readPath_of_fail hfs hw hok dest, htgt]
+      rw [if_neg hno, hsame]; rfl
+
+/-- (e) for the destinations `CliFlows` was written for: a plain name in the working directory. -/
+theorem compileP_name_refines_compileFs (f : Faults) (fuel pid : Nat) (p : Parsed) (fs : PathFs.Fs) (n : Name)
+    (hfs : FsOk fs (tmpName pid)) (hn : n ≠ tmpName pid) :
+    compileFs f p { dest := absDest fs fuel ⟨false, [n]⟩ } =
+      ((compileP f fuel pid p fs ⟨false, [n]⟩).1,
+       { dest := absDest (compileP f fuel pid p fs ⟨false, [n]⟩).2 fuel ⟨false, [n]⟩, tmp := none }) :=
+  compileP_refines_compileFs f fuel pid p fs _ hfs (Shape.ofName fs fuel _ n hn)
+
+/-! ### The hypotheses are decidable on concrete file systems -/
+
+instance decDirsFrom (m : Ents) : ∀ (cur : Loc) (ds : List Name), Decidable (dirsFrom m cur ds)
+  | _, [] => isTrue trivial
+  | cur, n :: ds =>
+    match decEq (entryAt m (cur ++ [n])) (some .dir), decDirsFrom m (cur ++ [n]) ds with
+    | isTrue h1, isTrue h2 => isTrue ⟨h1, h2⟩
+    | isFalse h1, _ => isFalse fun h => h1 h.1
+    | _, isFalse h2 => isFalse fun h => h2 h.2
+
+instance (m : Ents) (d : Loc) : Decidable (CanonDir m d) := decDirsFrom m [] d
+
+/-- No key of the entry table ends in `tmp`. -/
+def tmpFreeB (m : Ents) (tmp : Name) : Bool := m.all fun ke => ke.1.getLast? != some tmp
+
+theorem tmpFree_of_check (m : Ents) (tmp : Name) (h : tmpFreeB m tmp = true) (D : Loc) :
+    entryAt m (D ++ [tmp]) = none := by
+  unfold entryAt
+  simp only [List.append_eq_nil_iff, List.cons_ne_self, and_false, if_false]
+  induction m with
+  | nil => rfl
+  | cons a m ih =>
+    obtain ⟨k, e⟩ := a
+    simp only [tmpFreeB, List.all_cons, Bool.and_eq_true] at h
+    have hk : k ≠ D ++ [tmp] := by
+      intro hk; subst hk; simp at h
+    simp only [mget, hk, if_false]
+    exact ih h.2
+
+theorem FsOk.ofCheck (fs : PathFs.Fs) (tmp : Name) (h1 : CanonDir fs.ents fs.cwd) (h2 : tmpFreeB fs.ents tmp = true) :
+    FsOk fs tmp := ⟨h1, tmpFree_of_check _ _ h2⟩
+
+/-! ### Examples: the destinations of the harness (`harness/src/cli.rs`, `obs_c08`), each with a fault
+
+The harness runs every case in `work/` (the working directory), which holds `s.asm` and the
+sub-directory `sub/`. The root of the model stands for the directory that holds `work/`. -/
+
+section examples
+
+private def halt : Parsed := some (none, [some 0xF025#16])
+private def failing : Parsed := some (none, [some 0x1021#16, none, some 0xF025#16])
+private def obj : List Nat := [0x30, 0x00, 0xF0, 0x25]
+private def old : List Nat := [1, 2, 3, 4, 5, 6, 7]
+
+/-- `work/` with `s.asm` (inode 1) and `sub/`, plus `more`; inode 2 holds `old`. -/
+private def work (more : Ents) : PathFs.Fs :=
+  { ents := [(["work"], .dir), (["work", "s.asm"], .file 1), (["work", "sub"], .dir)] ++ more,
+    data := [(1, [104, 97, 108, 116]), (2, old)], cwd := ["work"] }
+
+private def out : Path := ⟨false, ["out.lc3"]⟩
+private def subOut : Path := ⟨false, ["sub", "out.lc3"]⟩
+private def link : Path := ⟨false, ["sub", "link.lc3"]⟩
+private def relTarget : Entry := .link ⟨false, ["real.lc3"]⟩
+private def absTarget : Entry := .link ⟨true, ["work", "sub", "real.lc3"]⟩
+
+/-- what the harness looks at: exit status, reading through the path, the two listings -/
+private def observe (r : Nat × PathFs.Fs) (dest : Path) : Nat × Read × List Name × List Name :=
+  (r.1, readPath r.2 40 dest, listDir r.2 ["work"], listDir r.2 ["work", "sub"])
+
+-- the hypotheses hold for the harness's file systems
+example : FsOk (work [(["work", "sub", "link.lc3"], relTarget)]) (tmpName 7) :=
+  FsOk.ofCheck _ _ (by decide) (by decide)
+example : Shape (work [(["work", "sub", "link.lc3"], relTarget)]) 40 (tmpName 7) link :=
+  Shape.ofPlainDir _ _ _ _ ["sub"] "link.lc3" rfl (by decide) (by decide)
+example : Shape (work []) 40 (tmpName 7) ⟨false, ["no-such-dir", "out.lc3"]⟩ :=
+  .noDir [] "no-such-dir" ["out.lc3"] rfl (by decide) (by decide) (by decide)
+
+-- a plain name in the working directory: absent
+example : observe (compileP {} 40 7 halt (work []) out) out =
+    (0, .bytes obj, ["out.lc3", "s.asm", "sub"], []) := by decide
+example : observe (compileP { limit := some 3 } 40 7 halt (work []) out) out =
+    (1, .absent, ["s.asm", "sub"], []) := by decide
+example : observe (compileP { renameFails := true } 40 7 halt (work []) out) out =
+    (1, .absent, ["s.asm", "sub"], []) := by decide
+-- … and existing; assembly failing at the second statement
+example : observe (compileP {} 40 7 halt (work [(["work", "out.lc3"], .file 2)]) out) out =
+    (0, .bytes obj, ["out.lc3", "s.asm", "sub"], []) := by decide
+example : observe (compileP {} 40 7 failing (work [(["work", "out.lc3"], .file 2)]) out) out =
+    (1, .bytes old, ["s.asm", "sub", "out.lc3"], []) := by decide
+example : observe (compileP { limit := some 0 } 40 7 halt (work [(["work", "out.lc3"], .file 2)]) out) out =
+    (1, .bytes old, ["s.asm", "sub", "out.lc3"], []) := by decide
+-- a name in a sub-directory: the temporary file lives there, never in the working directory
+example : observe (compileP {} 40 7 halt (work []) subOut) subOut =
+    (0, .bytes obj, ["s.asm", "sub"], ["out.lc3"]) := by decide
+example : (writeFile {} (work []) 40 (withFileName subOut (tmpName 7)) obj).1.ents.head? =
+    some (["work", "sub", ".lace-tmp7"], .file 2) := by decide
+-- a live link, relative target: written through, link kept
+example : observe (compileP {} 40 7 halt
+      (work [(["work", "sub", "link.lc3"], relTarget), (["work", "sub", "real.lc3"], .file 2)]) link) link =
+    (0, .bytes obj, ["s.asm", "sub"], ["real.lc3", "link.lc3"]) := by decide
+example : entryAt (compileP {} 40 7 halt
+      (work [(["work", "sub", "link.lc3"], relTarget), (["work", "sub", "real.lc3"], .file 2)]) link).2.ents
+    ["work", "sub", "link.lc3"] = some relTarget := by decide
+example : observe (compileP { limit := some 2 } 40 7 halt
+      (work [(["work", "sub", "link.lc3"], absTarget), (["work", "sub", "real.lc3"], .file 2)]) link) link =
+    (1, .bytes old, ["s.asm", "sub"], ["link.lc3", "real.lc3"]) := by decide
+-- a dangling link, relative target (resolved in the LINK's directory, not the working directory):
+-- the link itself becomes the object file; nothing appears in `work/`, nor at `sub/real.lc3`
+example : observe (compileP {} 40 7 halt (work [(["work", "sub", "link.lc3"], relTarget)]) link) link =
+    (0, .bytes obj, ["s.asm", "sub"], ["link.lc3"]) := by decide
+example : observe (compileP { limit := some 3 } 40 7 halt (work [(["work", "sub", "link.lc3"], relTarget)]) link) link =
+    (1, .absent, ["s.asm", "sub"], ["link.lc3"]) := by decide
+example : entryAt (compileP { limit := some 3 } 40 7 halt (work [(["work", "sub", "link.lc3"], relTarget)]) link).2.ents
+    ["work", "sub", "link.lc3"] = some relTarget := by decide
+-- a dangling link, absolute target
+example : observe (compileP {} 40 7 halt (work [(["work", "sub", "link.lc3"], absTarget)]) link) link =
+    (0, .bytes obj, ["s.asm", "sub"], ["link.lc3"]) := by decide
+example : observe (compileP { renameFails := true } 40 7 halt (work [(["work", "sub", "link.lc3"], absTarget)]) link) link =
+    (1, .absent, ["s.asm", "sub"], ["link.lc3"]) := by decide
+-- a hard-linked destination: the other name keeps the old contents, also when compile succeeds
+private def hard : PathFs.Fs := work [(["work", "out.lc3"], .file 2), (["work", "sub", "other-name.lc3"], .file 2)]
+private def other : Path := ⟨false, ["sub", "other-name.lc3"]⟩
+example : observe (compileP {} 40 7 halt hard out) out =
+    (0, .bytes obj, ["out.lc3", "s.asm", "sub"], ["other-name.lc3"]) := by decide
+example : readPath (compileP {} 40 7 halt hard out).2 40 other = .bytes old := by decide
+example : observe (compileP { limit := some 1 } 40 7 halt hard out) out =
+    (1, .bytes old, ["s.asm", "sub", "out.lc3"], ["other-name.lc3"]) := by decide
+example : readPath (compileP { limit := some 1 } 40 7 halt hard out).2 40 other = .bytes old := by decide
+-- a device: written in place, nothing accepted, still a device
+example : observe (compileP {} 40 7 halt (work [(["work", "devfull"], .dev)]) ⟨false, ["devfull"]⟩) ⟨false, ["devfull"]⟩ =
+    (1, .dev, ["s.asm", "sub", "devfull"], []) := by decide
+-- a missing directory
+example : observe (compileP {} 40 7 halt (work []) ⟨false, ["no-such-dir", "out.lc3"]⟩) ⟨false, ["no-such-dir", "out.lc3"]⟩ =
+    (1, .absent, ["s.asm", "sub"], []) := by decide
+-- the flattened model on the abstraction (theorem (e)), under a fault
+example : compileFs { limit := some 3 } halt { dest := absDest (work [(["work", "out.lc3"], .file 2)]) 40 out } =
+    (1, { dest := .file (some old), tmp := none }) := by decide
+-- NOT covered by `Shape` (a new name behind a symbolic link to a directory), evaluated: fine
+example : observe (compileP {} 40 7 halt (work [(["work", "d"], .link ⟨false, ["sub"]⟩)]) ⟨false, ["d", "out.lc3"]⟩)
+      ⟨false, ["d", "out.lc3"]⟩ = (0, .bytes obj, ["s.asm", "sub", "d"], ["out.lc3"]) := by decide
+
+end examples
+
+/-! ### Where the statement stops being true -/
+
+/-- `FsOk.tmpFree` is needed. `File::create(tmp)` follows links and truncates: if
+`.lace-tmp<pid>` already exists as a symbolic link to the destination, a write that fails half-way
+leaves the destination truncated — exit 1, and the destination (7 bytes) now holds 3 bytes of
+the new object file. (Confirmed on the binary: /tmp/ag-fs/FINDINGS.md.) -/
+theorem stale_tmp_link_truncates :
+    let fs : PathFs.Fs :=
+      { ents := [(["out.lc3"], .file 2), ([".lace-tmp7"], .link ⟨false, ["out.lc3"]⟩)], data := [(2, [1, 2, 3, 4, 5, 6, 7])] }
+    let r := compileP { limit := some 3 } 40 7 (some (none, [some 0xF025#16])) fs ⟨false, ["out.lc3"]⟩
+    r.1 = 1 ∧ readPath fs 40 ⟨false, ["out.lc3"]⟩ = .bytes [1, 2, 3, 4, 5, 6, 7] ∧
+      readPath r.2 40 ⟨false, ["out.lc3"]⟩ = .bytes [0x30, 0x00, 0xF0] := by decide
+
+/-- `Shape` is needed: without it the statement is false at the limit of link-following. `n` is a
+link to the directory that holds it; with `fuel` links allowed, the path `n/n/…/n` (`fuel + 1`
+components) needs `fuel + 1` links when its last component is followed (`canonicalize`,
+`metadata`: ELOOP) but only `fuel` when it is not (`rename`): compile replaces the LINK `n` by
+the object file and exits 0, after which the destination path cannot be read (`n` is no longer a
+directory). Here with `fuel = 1`; Linux allows 40. -/
+theorem symlink_depth_counterexample :
+    let fs : PathFs.Fs := { ents := [(["n"], .link ⟨true, []⟩)] }
+    let r := compileP {} 1 7 (some (none, [some 0xF025#16])) fs ⟨false, ["n", "n"]⟩
+    r.1 = 0 ∧ readPath r.2 1 ⟨false, ["n", "n"]⟩ = .absent ∧
+      entryAt r.2.ents ["n"] = some (.file 1) := by decide
+
 end Lace.C08
